@@ -22,6 +22,7 @@ type headMeta struct {
 	headCalls  int // getter Head calls logged so far
 	alone      bool
 	issuedAt   time.Time
+	closedAt   time.Time // virtual time at which the call had completed
 	checkedFor bool
 	closed     bool
 	delta      int
@@ -125,6 +126,10 @@ func c19Oracle(run *vk.Run, w *SWorld, cfg SCfg, hist []Ev, metas map[*spawned]*
 				viol("zero-head-nil-error", "Head() returned a zero header and nil error")
 			} else if m != nil && (m.subj == nil || m.expired) && h.Time().Add(c19Trusting).Before(m.issuedAt) {
 				viol("expired-head-adopted", "(re)initialisation adopted %v which was already expired when Head() was called", h)
+			} else if m != nil && (m.subj == nil || m.expired) && m.closed && h.Time().Add(c19Trusting).Before(m.closedAt) {
+				// the statement speaks about the head that is adopted: a head that expired while the request
+				// was in flight (slow trusted peer) is expired when it is adopted
+				viol("expired-head-adopted", "(re)initialisation adopted %v, which had expired (trusting period %v) by the time the trusted peers' answer arrived at %v", h, c19Trusting, m.closedAt.UTC())
 			}
 		}
 		if m == nil || m.checkedFor || !m.closed {
@@ -290,7 +295,7 @@ func TestC19(t *testing.T) {
 				for c, cm := range metas {
 					if !cm.closed && c.call.Done() {
 						n, last := w.getterHeadCalls()
-						cm.closed, cm.delta, cm.last = true, n-cm.headCalls, last
+						cm.closed, cm.delta, cm.last, cm.closedAt = true, n-cm.headCalls, last, time.Now()
 					}
 				}
 				w.collectHeads()
